@@ -185,15 +185,17 @@ pub fn strtab_proj(base: Option<&[u8]>, st: &StringTable<'_>) -> Value {
     let mut off = 0usize;
     let mut n = 0usize;
     let mut walked: Vec<u8> = Vec::new();
-    let mut start: Option<Value> = None;
+    // position of the table inside the caller's buffer, taken from the first NON-EMPTY string handed out
+    // (empty slices carry no position); -1 = the string does not lie in the caller's buffer
+    let mut start: Option<i64> = None;
     while n < 64 {
         match st.get_raw(off) {
             Ok(s) => {
-                if start.is_none() {
+                if start.is_none() && !s.is_empty() {
                     if let Some(b) = base {
                         let p = s.as_ptr() as usize;
                         let b0 = b.as_ptr() as usize;
-                        start = Some(if p >= b0 + off && p <= b0 + b.len() { json!(p - b0 - off) } else { json!("foreign") });
+                        start = Some(if p >= b0 + off && p + s.len() <= b0 + b.len() { (p - b0 - off) as i64 } else { -1 });
                     }
                 }
                 walked.extend_from_slice(s);
@@ -206,7 +208,7 @@ pub fn strtab_proj(base: Option<&[u8]>, st: &StringTable<'_>) -> Value {
     }
     let mut v = json!({"some": true, "nstr": n, "walked": off, "ck": ck(&walked)});
     if base.is_some() {
-        v["start"] = start.unwrap_or(json!(0));
+        v["start"] = json!(start.unwrap_or(0));
     }
     v
 }
